@@ -508,6 +508,9 @@ func customAttrType_Under_Score() attr.Type   { return hookType{} }
 func GenSchemaUnder_Score(_ context.Context, a tfsdk.Attribute) tfsdk.Attribute { a.Type = hookType{}; return a }
 func CopyToUnder_Score(diags diag.Diagnostics, obj Under_Score, t attr.Type, v attr.Value) attr.Value {
 	countHook("CopyToUnder_Score")
+	if obj == "" {
+		return nil // a hook may return a nil value (e.g. on its error path): that is what gets stored
+	}
 	_, ok := t.(hookType)
 	return hookValue{Hook: "CopyToUnder_Score", Arg: string(obj), TypeSeen: ok, PrevSeen: v != nil}
 }
@@ -659,7 +662,12 @@ func Harness_Custom_To() {
 	own, ok4 := tf.Attrs["own"].(types.String)
 	vrt.Assert("C17/Cu/own:ordinary-field-unaffected", ok4 && own.Value == obj.Own)
 	cu, okU := tf.Attrs["cu"].(hookValue)
-	vrt.Assert("C17/Cu/cu:default-suffix-keeps-underscore", okU && cu.Hook == "CopyToUnder_Score" && cu.Arg == string(obj.CU) && hookCalls["CopyToUnder_Score"] == 1)
+	if obj.CU == "" {
+		raw, has := tf.Attrs["cu"]
+		vrt.Assert("C17/Cu/cu:nil-hook-result-is-stored", has && raw == nil && hookCalls["CopyToUnder_Score"] == 1)
+	} else {
+		vrt.Assert("C17/Cu/cu:default-suffix-keeps-underscore", okU && cu.Hook == "CopyToUnder_Score" && cu.Arg == string(obj.CU) && hookCalls["CopyToUnder_Score"] == 1)
+	}
 	il, ok5 := tf.Attrs["items"].(hookValue)
 	vrt.Assert("C17/Cu/items:repeated-message-custom-uses-hook", ok5 && il.Hook == "CopyToItemList" && il.ArgLen == len(obj.Items) && il.TypeSeen && !il.PrevSeen)
 	vrt.Assert("C17/Cu/items:hook-called-once", hookCalls["CopyToItemList"] == 1)
